@@ -312,9 +312,10 @@ func init() {
 			k.Names = []string{"a"}
 			k.MaxScopes = 5
 			k.MaxOps = 26
-			k.WCycleCloser = 1 // after a cycle-rejected registration the state must be intact
-			k.PSide = 8        // bodies that call String / Visualize / Scope / Provide / Decorate on the container
-			k.PNamedSlice = 25 // decorators and consumers that declare one group with different (named) slice types
+			k.WCycleCloser = 1  // after a cycle-rejected registration the state must be intact
+			k.PSide = 8         // bodies that call String / Visualize / Scope / Provide / Decorate on the container
+			k.PNamedSlice = 25  // decorators and consumers that declare one group with different (named) slice types
+			k.WDecoSandwich = 2 // a decorator registered between an outer decorator and a consumer that has resolved the key before
 			return k
 		},
 		clauses: []string{CVerdictDecorate, CExecTwice, CProvSingle, CGroupMultiset, CFromNowhere, CBadExec, CZeroRequired},
